@@ -28,7 +28,13 @@ FORBIDDEN = re.compile(
 
 # axioms of the standard library (and of libraries shipped with it) that a
 # property may depend on, per property; everything else must be closed.
+# the kernel's primitive integers and floats (Print Assumptions lists the primitives a theorem computes with; they are not axioms of ours)
+PRIMITIVES = {"PrimInt63.int", "PrimFloat.float", "PrimInt63.add", "PrimInt63.sub", "PrimInt63.mul", "PrimInt63.lsl", "PrimInt63.lsr",
+              "PrimInt63.lor", "PrimInt63.land", "int", "float", "add", "sub", "mul", "lsl", "lsr", "lor", "land", "of_uint63", "PrimFloat.add", "PrimFloat.sub", "PrimFloat.mul",
+              "PrimFloat.div", "PrimFloat.eqb", "PrimFloat.ltb", "PrimFloat.leb", "PrimFloat.of_uint63"}
+
 ALLOWED_AXIOMS = {
+    "C16": set(PRIMITIVES),
     "C17": {
         "ClassicalDedekindReals.sig_forall_dec",
         "ClassicalDedekindReals.sig_not_dec",
